@@ -60,7 +60,7 @@ func (f *Psetq) Call(s *slip.Scope, args slip.List, depth int) (result slip.Obje
 			slip.TypePanic(s, depth, "symbol argument to psetq", args[i], "symbol")
 		}
 		i++
-		result = slip.EvalArg(s, args, i, d2)
+		result = slip.PrimaryValue(slip.EvalArg(s, args, i, d2))
 		syms = append(syms, sym)
 		vals = append(vals, result)
 	}
